@@ -113,22 +113,22 @@ variable (p : Prog) (fuel idx : Nat) (m m' : Machine) (ctx ctx' : Ctx) (stdin : 
 theorem loop_halt (hq : (p.interpreted || getFlag m.flag .TRAP) = false)
     (hp : parseLine (p.code[idx]?.getD "") = some i) (he : exec idx m ctx i = .ok (.HALT, m', ctx')) :
     loop p (fuel + 1) idx m ctx stdin out tr = { stdout := out, exit := 0, trace := (idx :: tr).reverse, final := some m' } := by
-  simp [loop, hq, hp, he]
+  simp [loop, prePrompt, stepBody, hq, hp, he]
 
 theorem loop_next (hq : (p.interpreted || getFlag m.flag .TRAP) = false)
     (hp : parseLine (p.code[idx]?.getD "") = some i) (he : exec idx m ctx i = .ok (.NEXT, m', ctx')) :
     loop p (fuel + 1) idx m ctx stdin out tr = loop p fuel (idx + 1) m' ctx' stdin out (idx :: tr) := by
-  simp [loop, hq, hp, he]
+  simp [loop, prePrompt, stepBody, hq, hp, he]
 
 theorem loop_jmp (n : Nat) (hq : (p.interpreted || getFlag m.flag .TRAP) = false)
     (hp : parseLine (p.code[idx]?.getD "") = some i) (he : exec idx m ctx i = .ok (.JMP n, m', ctx')) :
     loop p (fuel + 1) idx m ctx stdin out tr = loop p fuel n m' ctx' stdin out (idx :: tr) := by
-  simp [loop, hq, hp, he]
+  simp [loop, prePrompt, stepBody, hq, hp, he]
 
 theorem loop_repeat (hq : (p.interpreted || getFlag m.flag .TRAP) = false)
     (hp : parseLine (p.code[idx]?.getD "") = some i) (he : exec idx m ctx i = .ok (.REPEAT, m', ctx')) :
     loop p (fuel + 1) idx m ctx stdin out tr = loop p fuel idx m' ctx' stdin out (idx :: tr) := by
-  simp [loop, hq, hp, he]
+  simp [loop, prePrompt, stepBody, hq, hp, he]
 end
 
 end Emu8086.Props.C08
